@@ -31,8 +31,22 @@ func (w *histWorld) Gen(seed uint64, tier string) *Plan {
 		}
 		nOps = cfg.Dom * r.Range(2, 4)
 	}
+	big := !w.bigN && !w.c15 && r.P(1, 40)
+	if big {
+		// large-size runs: hundreds to thousands of elements, state comparison every 16th step
+		cfg.Mode = "big"
+		cfg.Dom = []int{128, 256, 512, 1024}[r.Intn(4)]
+		nOps = cfg.Dom * r.Range(2, 3)
+		if tier != "thorough" {
+			nOps = min(nOps, 1500)
+		}
+	}
 	if familyOf(cfg.Kind) == "heap" && cfg.Dom > 64 {
 		cfg.Dom = 64
+		if big {
+			cfg.Dom = 256
+			nOps = min(nOps, 700)
+		}
 	}
 	cfg.Strat = r.PickS("random", "burst", "roundrobin")
 	p := &Plan{World: "hist", Cfg: cfg}
@@ -46,6 +60,10 @@ func (w *histWorld) Gen(seed uint64, tier string) *Plan {
 	for i := range clients {
 		clients[i] = &Client{Role: roles[r.Intn(len(roles))], Cursor: r.Intn(1000)}
 		p.Clients = append(p.Clients, clients[i].Role)
+	}
+	if big {
+		clients[0].Role = r.PickS("grower", "ascending", "producer", "pusher", "adder", "mixed")
+		p.Clients[0] = clients[0].Role
 	}
 	if w.bigN {
 		// the statement names sorted, reverse-sorted, zig-zag and churn orders in particular
@@ -123,6 +141,7 @@ func (w *histWorld) Exec(p *Plan, st *RunStats) *Violation {
 	for _, op := range p.Ops {
 		before := s.ModelSize()
 		op := op
+		o.Sparse = p.Cfg.Mode == "big" && op.ID%16 != 0
 		safely(o, op, func() { s.Step(op, o) })
 		st.Ops++
 		if traceOn {
@@ -163,6 +182,11 @@ func (w *histWorld) Exec(p *Plan, st *RunStats) *Violation {
 		}
 		if st.Ops%8 == 0 && len(st.States) < 64 && !w.bigN {
 			st.States = append(st.States, hashStr(p.Cfg.Kind+s.ModelObs()))
+		}
+	}
+	if !o.Failed() && p.Cfg.Mode == "big" {
+		if h, ok := s.(interface{ CheckNow(*Oracle) }); ok {
+			safely(o, Op{ID: -1, N: "FinalCheck"}, func() { o.cur = Op{ID: -1, N: "FinalCheck"}; h.CheckNow(o) })
 		}
 	}
 	if !o.Failed() {
